@@ -211,29 +211,32 @@ def _shard_wrap(runs):
 
 # ---- pixel map -----------------------------------------------------------------------------
 
-def _py_display(vram_bytes: bytes, sl: int = 0) -> List[str]:
+def _py_display(vram_bytes: bytes, sl: int = 0, on=(True, True)) -> List[str]:
     lcd = HD61202Controller()
-    meta = {"chips": [{"on": True, "start_line": sl}, {"on": True, "start_line": sl}], "pages": 8, "width": 64}
+    meta = {"chips": [{"on": bool(on[0]), "start_line": sl}, {"on": bool(on[1]), "start_line": sl}], "pages": 8, "width": 64}
     lcd.load_snapshot(meta, vram_bytes)
     buf = lcd.get_display_buffer()
     return ["".join("1" if v else "0" for v in row) for row in buf]
 
 
-def _rs_display_req(vram_bytes: bytes, sl: int = 0):
-    return {"cmd": "lcd", "script": [{"w": [0x2000, 0x3F]}, {"w": [0x2000, 0xC0 | (sl & 0x3F)]}, {"setvram": vram_bytes.hex()}, {"obs": True}]}
+def _rs_display_req(vram_bytes: bytes, sl: int = 0, on=(True, True)):
+    # 0x2008 selects the left chip (index 0), 0x2004 the right one; 0x3F / 0x3E = display on / off
+    return {"cmd": "lcd", "script": [{"w": [0x2008, 0x3F if on[0] else 0x3E]}, {"w": [0x2004, 0x3F if on[1] else 0x3E]},
+                                     {"w": [0x2000, 0xC0 | (sl & 0x3F)]}, {"setvram": vram_bytes.hex()}, {"obs": True}]}
 
 
 def _pixelmap(args):
     impl, chip, pages = args[:3]
     sl = args[3] if len(args) > 3 else 0          # display start line the map is taken under
-    sfx = f"/start-line-{sl}" if sl else ""
+    on = tuple(args[4]) if len(args) > 4 else (True, True)
+    sfx = (f"/start-line-{sl}" if sl else "") + ("" if on == (True, True) else f"/on={int(on[0])}{int(on[1])}")
     vb = VB()
     h = rb.harness() if impl == "rust" else None
     base_v = bytes(1024)
     if impl == "rust":
-        base = h.call(_rs_display_req(base_v, sl))["out"][-1]["display"]
+        base = h.call(_rs_display_req(base_v, sl, on))["out"][-1]["display"]
     else:
-        base = _py_display(base_v, sl)
+        base = _py_display(base_v, sl, on)
     owner: Dict[Tuple[int, int], Tuple[int, int, int, int]] = {}
     n = 0
     multi = 0
@@ -247,9 +250,9 @@ def _pixelmap(args):
                 keys.append((chip, page, col, bit))
                 reqs.append(bytes(v))
         if impl == "rust":
-            outs = [o["out"][-1]["display"] for o in h.batch([_rs_display_req(v, sl) for v in reqs])]
+            outs = [o["out"][-1]["display"] for o in h.batch([_rs_display_req(v, sl, on) for v in reqs])]
         else:
-            outs = [_py_display(v, sl) for v in reqs]
+            outs = [_py_display(v, sl, on) for v in reqs]
         for key, disp in zip(keys, outs):
             n += 1
             changed = [(r, c) for r in range(32) for c in range(240) if disp[r][c] != base[r][c]]
@@ -334,6 +337,20 @@ def run(ctx) -> None:
             ctx.violation(f"C15/{r['impl']}/pixelmap/start-line-is-not-a-scroll", f"{r['impl']}: chip {r['chip']} start line {r['sl']}: pixel {bad} is driven by "
                           f"{r['owner'].get(bad)}; with start line 0 it is {base0[bad]}, scrolled by {r['sl']} lines it would be {rot(base0[bad], r['sl'])}",
                           {"pixelmap": r["impl"], "key": [r["chip"], 0, 0, 0], "sl": r["sl"], "scroll": True})
+    # a chip's pixels do not depend on whether the OTHER chip is switched on: with only chip A on, A's bits drive the same
+    # pixels as with both on (the display-off state of A itself may blank its region or be ignored by the view)
+    pmon = pmap(_pixelmap, [(impl, chip, list(range(8)), 0, (chip == 0, chip == 1)) for impl in ("python", "rust") for chip in (0, 1)])
+    for r in pmon:
+        base0 = {}
+        for x in pm:
+            if x["impl"] == r["impl"]:
+                base0.update({k: v for k, v in x["owner"].items() if v[0] == r["chip"]})
+        if r["owner"] != base0:
+            bad = next(k for k in set(base0) | set(r["owner"]) if base0.get(k) != r["owner"].get(k))
+            ctx.violation(f"C15/{r['impl']}/pixelmap/depends-on-the-other-chips-display-switch", f"{r['impl']}: with only chip {r['chip']} switched on, pixel {bad} "
+                          f"is driven by {r['owner'].get(bad)}; with both chips on by {base0.get(bad)}",
+                          {"pixelmap": r["impl"], "key": [r["chip"], 0, 0, 0], "onswitch": True})
+        ctx.merge_bucket(r["vb"])
     ctx.coverage["pixelmap_start_lines"] = list(sls)
     for r in res + wres + pm + pmsl:
         ctx.merge_bucket(r["vb"])
@@ -381,6 +398,11 @@ def replay(ctx, w) -> Optional[str]:
     if "history" in w:
         hist = tuple(tuple(e) for e in w["history"])
         judge(hist, run_py(hist), rs_unpack(rb.harness().call(rs_req(hist)), hist), vb)
+    elif "pixelmap" in w and w.get("onswitch"):
+        impl, chip = w["pixelmap"], w["key"][0]
+        o0 = _pixelmap((impl, chip, list(range(8)), 0))["owner"]
+        o1 = _pixelmap((impl, chip, list(range(8)), 0, (chip == 0, chip == 1)))["owner"]
+        return None if o0 == o1 else f"{impl}: chip {chip}'s pixel map changes when the other chip is switched off"
     elif "pixelmap" in w and (w.get("scroll") or w.get("count")):
         impl, chip, sl = w["pixelmap"], w["key"][0], w["sl"]
         o0 = _pixelmap((impl, chip, list(range(8)), 0))["owner"]
